@@ -225,6 +225,47 @@ def udp_bind_rule():
     raise ExtractError(f"server UDP relay: bind address `{arg}` is not a modelled rule")
 
 
+def fn_body(src, header_re, what):
+    m = one(header_re, src, what)
+    i = m.end()
+    depth = 1
+    while i < len(src) and depth:
+        if src[i] == "{":
+            depth += 1
+        elif src[i] == "}":
+            depth -= 1
+        i += 1
+    if depth:
+        raise ExtractError(f"{what}: unbalanced braces")
+    return src[m.end():i - 1]
+
+
+def auth_gate():
+    """how `handle_connection` (src/server/server.rs) runs the authentication of a new connection: one bare call whose
+    error ends the connection before a session exists, on the very reader the session is then built on"""
+    src = strip_comments(read("src/server/server.rs"))
+    body = fn_body(src, r"async fn handle_connection\b.*?->\s*Result<\(\)>\s*\{", "server handle_connection")
+    flat = re.sub(r"\s+", "", body)
+    calls = len(re.findall(r"\bauthenticate_client\s*\(", body))
+    if calls != 1:
+        raise ExtractError(f"server handle_connection: expected exactly one authenticate_client call, found {calls}")
+    if "let(mutreader,writer)=tokio::io::split(tls_stream);" not in flat:
+        raise ExtractError("server handle_connection: the TLS stream is not split into `reader`/`writer` as modelled")
+    if "Session::new_server(reader,writer," not in flat:
+        raise ExtractError("server handle_connection: the session is not built on the `reader`/`writer` of the split")
+    a = flat.index("tokio::io::split(tls_stream);")
+    b = flat.index("Session::new_server(reader,writer,")
+    c = flat.index("authenticate_client(")
+    if not (a < c < b):
+        raise ExtractError("server handle_connection: authentication does not sit between the split and the session")
+    between = flat[a:b]
+    if "authenticate_client(&mutreader,&password_hash,&padding).await?;" in between and not re.search(r"timeout(_at)?\(|select!|loop\{|while|BufReader", between):
+        return "bareOnce"
+    if re.search(r"timeout(_at)?\([^;]*authenticate_client\(&mutreader,&password_hash,&padding\)", between) and re.search(r"loop\{|while", between):
+        return "timedRetry"
+    raise ExtractError("server handle_connection: the way authenticate_client is awaited is not a modelled shape")
+
+
 def extract():
     g = {}
     # ---- protocol/frame.rs -------------------------------------------------------
@@ -438,6 +479,8 @@ def extract():
     # ---- UDP-over-TCP relay loops and the relay socket's address family ----------------------
     g["udpSites"] = udp_sites("src/server/udp_proxy.rs") + udp_sites("src/client/udp_client.rs")
     g["udpBind"] = udp_bind_rule()
+    # ---- the authentication gate of a server connection -------------------------------------
+    g["authGate"] = auth_gate()
     return g
 
 
@@ -577,6 +620,14 @@ def render(g):
     a("  deriving DecidableEq, Repr")
     a("")
     a(f"def udpBind : BindRule := .{g['udpBind']}")
+    a("")
+    a("/-- how `handle_connection` awaits `authenticate_client` before it builds the session -/")
+    a("inductive AuthGate where")
+    a("  | bareOnce     -- one call, awaited to completion; its error ends the connection")
+    a("  | timedRetry   -- the call sits under a timer inside a loop: on expiry it is dropped and started again")
+    a("  deriving DecidableEq, Repr")
+    a("")
+    a(f"def authGate : AuthGate := .{g['authGate']}")
     a("")
     a("end AnyTLS.Gen")
     return "\n".join(L) + "\n"
